@@ -7,7 +7,10 @@ Nothing here re-states a decision of the code: the only hand-written semantics a
   * how a chain outcome (`Res`) becomes a value kind,
   * the per-execution state of `ExternalCommand` (`skipValue`, `missingInputKeys`) folded over the inputs
     that `provideValue` receives, and the first statement of `execute`,
-  * the count of `hadCommandFailure()` calls over the completions of one build.
+  * the count of `hadCommandFailure()` calls over the completions of one build,
+  * how a child process can end (exit code / signal) and the Linux encoding of that as a wait status,
+  * the life of one `ExternalCommand` object over several executions (`start`, `providePriorValue`, `provideValue`*,
+    `execute`) with its two "update without running" flags.
 These are corresponded exhaustively against the real classes by `harness/vc10.cpp`.  CORE LEAN ONLY.
 -/
 import LLBuild.Generated.FailTables
@@ -104,5 +107,91 @@ def reports (buildCancelled : Bool) (c : Completion) : Nat :=
 def failureCount (buildCancelled : Bool) : List Completion → Nat
   | [] => 0
   | c :: cs => reports buildCancelled c + failureCount buildCancelled cs
+
+/-! ### how a child ends, and what an executed command then reports -/
+
+/-- the two ways `wait4(pid, &status, 0, …)` reports a child: it called `exit(code)` or it was killed by a signal -/
+inductive ChildEnd where
+  | exited (code : Nat)
+  | signaled (sig : Nat) (core : Bool)
+  deriving DecidableEq, Repr
+
+/-- exit codes are 8 bits; Linux has the signals 1..64 -/
+def ChildEnd.wf : ChildEnd → Bool
+  | .exited c => c < 256
+  | .signaled s _ => 1 ≤ s && s ≤ 64
+
+/-- the wait status the kernel reports (Linux): `code << 8`, or `sig | 0x80 if a core was dumped` -/
+def ChildEnd.encode : ChildEnd → Nat
+  | .exited c => c * 256
+  | .signaled s core => s + (if core then 128 else 0)
+
+def ChildEnd.all : List ChildEnd :=
+  (List.range 256).map .exited ++ (List.range 64).flatMap fun s => [.signaled (s + 1) false, .signaled (s + 1) true]
+
+/-- the result of an executed external command whose child ended as `e`: `cleanUpExecutedProcess` classifies the wait
+    status, the completion lambda of `ExternalCommand::execute` maps the `ProcessStatus` -/
+def executedResult (e : ChildEnd) : Res := processResult (waitProcStatus e.encode)
+
+/-! ### one command object over several executions -/
+
+/-- the private members `canUpdateIfNewer`, `hasPriorResult` -/
+structure UpdState where
+  canUpdate : Bool
+  hasPrior : Bool
+  deriving DecidableEq, Repr
+
+/-- a freshly constructed command (member initialisers) -/
+def UpdState.init : UpdState := ⟨canUpdateIfNewerInit, hasPriorResultInit⟩
+
+structure Life where
+  cmd : CmdState
+  upd : UpdState
+  deriving DecidableEq, Repr
+
+def Life.init : Life := ⟨CmdState.init, UpdState.init⟩
+
+/-- the calls the engine makes on a command's task before `execute` -/
+inductive LifeStep where
+  | start
+  | prior (k : Kind)     -- providePriorValue with a value of kind k
+  | input (k : Kind)     -- provideValue with a value of kind k
+  deriving DecidableEq, Repr
+
+/-- `none` = `llvm_unreachable` inside `provideValue` -/
+def Life.step (allow : Bool) (l : Life) : LifeStep → Option Life
+  | .start => some ⟨CmdState.init, ⟨startCanUpdate l.upd.canUpdate, startHasPrior l.upd.hasPrior⟩⟩
+  | .prior k => some ⟨l.cmd, ⟨l.upd.canUpdate, priorHasPrior k l.upd.hasPrior⟩⟩
+  | .input k =>
+    match provide allow l.cmd k with
+    | none => none
+    | some c =>
+      if provideValueEarlyReturn k then some ⟨c, l.upd⟩
+      else match skipValueForInput k allow with
+        | .continue => some ⟨c, ⟨inputCanUpdate k l.upd.canUpdate, l.upd.hasPrior⟩⟩
+        | _ => some ⟨c, l.upd⟩
+
+def Life.steps (allow : Bool) : Life → List LifeStep → Option Life
+  | l, [] => some l
+  | l, s :: ss => match l.step allow s with
+    | some l' => Life.steps allow l' ss
+    | none => none
+
+/-- what `ExternalCommand::execute` does -/
+inductive Decision2 where
+  | run                                      -- `commandStarted`, `executeExternalCommand`
+  | skip (result : Kind) (reported : Bool)
+  | update                                   -- completes with `computeCommandResult` (a successful kind) WITHOUT starting the command
+  deriving DecidableEq, Repr
+
+/-- amo = `allow-modified-outputs`; anyMissing = some output is missing on disk now -/
+def execute2 (amo anyMissing : Bool) (l : Life) : Decision2 :=
+  match execute l.cmd with
+  | .skip k r => .skip k r
+  | .run => if updateGuard l.upd.canUpdate l.upd.hasPrior && canUpdateWithResult amo anyMissing then .update else .run
+
+/-- one build's calls on the command: start, the prior value if the engine has one, the input values -/
+def buildSteps (prior : Option Kind) (inputs : List Kind) : List LifeStep :=
+  .start :: (match prior with | some k => [.prior k] | none => []) ++ inputs.map .input
 
 end LLBuild.FailProp
